@@ -118,6 +118,7 @@ def loss_case(driver, seed, part, i, res, base_times):
     frames_t = {}
     tstate = {"detect": None}
     with_sequence = i % 4 == 1
+    bad_cleanup = i % 8 == 5
 
     async def caller(c):
         k = 0
@@ -141,9 +142,16 @@ def loss_case(driver, seed, part, i, res, base_times):
 
         def g():
             got_ = []
-            for c_ in cmds_:
-                got_.append((yield c_))
-                yield _S.sleep(0.35)
+            try:
+                for c_ in cmds_:
+                    got_.append((yield c_))
+                    yield _S.sleep(0.35)
+            finally:
+                if bad_cleanup:
+                    # an application's sequence whose clean-up talks to the bus once more: closing it part-way raises
+                    # RuntimeError (the generator ignored GeneratorExit) - that is the application's bug and must not cost
+                    # anybody else the transaction lock
+                    yield _S.progress(message="cleanup that ignores GeneratorExit")
             return got_
         seq_out["cmds"] = cmds_
         try:
@@ -249,7 +257,9 @@ def loss_case(driver, seed, part, i, res, base_times):
                 pass
         if with_sequence and "result" in seq_out:
             st_, val_ = seq_out["result"]
-            if st_ == "exc" and not isinstance(val_, (CommunicationError, asyncio.CancelledError)):
+            if st_ == "exc" and bad_cleanup and isinstance(val_, RuntimeError):
+                res.hit("sequences_with_failing_cleanup_aborted")
+            elif st_ == "exc" and not isinstance(val_, (CommunicationError, asyncio.CancelledError)):
                 res.violation(f"C17/{driver}/sequence-raised/{type(val_).__name__}", f"a sequence running across the loss raised {type(val_).__name__}: "
                               f"{val_} (only CommunicationError is documented)", {**wit, "tb": short_tb(val_)})
             elif st_ == "ok":
@@ -364,6 +374,116 @@ def loss_case(driver, seed, part, i, res, base_times):
             res.violation(f"C17/{driver}/internal-error", f"exception in a callback/task: {sim.loop.errors[0]}", wit)
         if i == 0:
             res.sample(wit)
+    finally:
+        sim.close()
+
+
+def app_disconnect_case(driver, seed, i, res, prefix="C15"):
+    """Used by C15.  The application itself calls disconnect() (public API) while commands are in flight - in the very loop
+    pass in which a report of the gateway is read, or a little later.  No property says how such a send has to end; what C15
+    does say is that every caller completes and the transaction lock is free afterwards.  Only that is judged: the way a
+    send ends (the pinned Tridonic driver lets a KeyError escape when the final report and the disconnect share a loop
+    pass) is recorded as an observation."""
+    from dali.exceptions import CommunicationError
+    r = rng(seed, "C17", "app-disconnect", driver, i)
+    picker = simlib.Picker(r)
+    exceptions = r.random() < 0.5
+    sim = simlib.Sim(driver, picker, hid_kwargs={"reconnect_interval": 0.5})
+    nth = r.randint(1, 6)                 # the report after which the application disconnects
+    lag = r.choice([0.0, 0.0, 0.0, 0.0005, 0.004, 0.02])
+    reconnect = r.random() < 0.8
+    outcomes = []
+    state = {"n": 0, "t": None}
+
+    async def caller(c):
+        for k in range(6):
+            cmd = simlib.make_command(r, ["query", "twice", "plain", "dtquery" if driver == "tridonic" else "query"][(k + c) % 4], c, k, driver)
+            t0 = sim.world.now
+            try:
+                outcomes.append((c, k, "ok", await sim.driver.send(cmd), cmd, t0, sim.world.now))
+            except Exception as e:
+                outcomes.append((c, k, "exc", e, cmd, t0, sim.world.now))
+            await asyncio.sleep(0.01)
+
+    async def main(sim):
+        d = sim.driver
+        d.exceptions_on_send = exceptions
+        await sim.connect()
+        loop = asyncio.get_running_loop()
+
+        def on_report(data):
+            if data and data[0] == 0:
+                return                    # hasseb idle chatter
+            state["n"] += 1
+            if state["n"] == nth:
+                state["t"] = sim.world.now
+                # a timer due now runs after the reader callback of this loop pass: the report is read, then the
+                # application disconnects, and only then does the waiting sender get to run
+                loop.call_at(loop.time() + lag, lambda: d.disconnect(reconnect=reconnect))
+                if not reconnect:
+                    loop.call_at(loop.time() + lag + 0.7, d.connect)
+        sim.dev.on_report = on_report
+        tasks = [asyncio.ensure_future(caller(c)) for c in range(r.choice([1, 2, 3]))]
+        done_, pending_ = await asyncio.wait(tasks, timeout=30.0)      # does not cancel what is still running
+        hung = [c for c, t in enumerate(tasks) if t in pending_]
+        for t in tasks:
+            t.cancel()
+        await asyncio.gather(*tasks, return_exceptions=True)
+        fresh = None
+        if not hung:
+            await asyncio.sleep(1.5)
+            cmd = simlib.make_command(r, "query", 3, 7, driver)
+            t0 = sim.world.now
+            try:
+                fresh = ("ok", await asyncio.wait_for(d.send(cmd), 5.0), cmd, t0)
+            except Exception as e:
+                fresh = ("exc", e, cmd, t0)
+        return {"hung": hung, "fresh": fresh, "connected": d.connected.is_set()}
+
+    out, stalled = sim.run(main)
+    res.evaluations += 1
+    res.distinct += 1
+    res.hit("app_disconnect_runs")
+    wit = {"driver": driver, "seed": seed, "case": i, "disconnect_after_report": nth, "lag": lag, "reconnect": reconnect,
+           "exceptions_on_send": exceptions, "disconnected_at": state["t"]}
+    try:
+        if simlib.detached(out):
+            res.inconclusive.append('harness detached: ' + str(out))
+            return
+        if stalled or not isinstance(out, dict):
+            res.violation(f"{prefix}/{driver}/app-disconnect/stall-or-crash", f"simulation ended with {'a stall' if stalled else repr(out)}", wit)
+            return
+        if state["t"] is None:
+            res.add("app_disconnect_not_reached")
+            return
+        if out["hung"]:
+            res.violation(f"{prefix}/{driver}/app-disconnect/send-never-ends", f"after the application's disconnect() (report {nth}, lag {lag}) the "
+                          f"send() of callers {out['hung']} had not ended 30 s later", wit)
+            return
+        for c, k, st, val, cmd, t0, t1 in outcomes:
+            if st == "exc" and not isinstance(val, CommunicationError):
+                res.observe(f"{driver}-send-ends-with-{type(val).__name__}-when-the-application-disconnects-in-the-pass-of-its-last-report", str(cmd))
+            if st == "ok" and t1 < state["t"]:
+                why = check_answer(driver, cmd, val, sim.bus.wire, t_from=t0)
+                if why:
+                    res.violation(f"{prefix}/{driver}/app-disconnect/wrong-result-before", f"send({cmd}) before the disconnect: {why}", wit)
+                    return
+        probs = state_problems(sim, driver)
+        if probs:
+            res.violation(f"{prefix}/{driver}/app-disconnect/state-left-behind", "; ".join(probs), wit)
+            return
+        fr = out["fresh"]
+        if fr is not None and fr[0] == "ok":
+            why = check_answer(driver, fr[2], fr[1], sim.bus.wire, t_from=fr[3])
+            if why:
+                res.violation(f"{prefix}/{driver}/app-disconnect/fresh-send-wrong", f"a new send after the reconnection: {why}", wit)
+        elif fr is not None and isinstance(fr[1], (asyncio.TimeoutError, TimeoutError)):
+            res.violation(f"{prefix}/{driver}/app-disconnect/fresh-send-never-ends", "a new send() after the application's disconnect / "
+                          "reconnect had not ended 5 s later", wit)
+        if getattr(sim, "hostile_calls", 0):
+            res.hit("hostile_listener_runs")
+        if sim.loop.errors:
+            res.violation(f"{prefix}/{driver}/internal-error", f"exception in a callback/task: {sim.loop.errors[0]}", wit)
     finally:
         sim.close()
 
